@@ -1121,7 +1121,11 @@ func CountedLoop(l *Loop) (bool, string) {
 	}
 	cond, neg := normCond(ifi.Cond)
 	bo, ok := cond.(*ssa.BinOp)
-	if !ok || (bo.Op != token.LSS && bo.Op != token.LEQ) || neg {
+	neqForm := false
+	if ok && bo.Op == token.NEQ && !neg {
+		// `i != bound` ends when the counter starts at a constant not above a constant bound and moves by one
+		neqForm = true
+	} else if !ok || (bo.Op != token.LSS && bo.Op != token.LEQ) || neg {
 		return false, "the loop condition is not `counter < bound`"
 	}
 	phi, ok := bo.X.(*ssa.Phi)
@@ -1146,10 +1150,29 @@ func CountedLoop(l *Loop) (bool, string) {
 		}
 		if k, ok := ConstInt(inc.Y); !ok || k <= 0 {
 			return false, "a back edge does not increment the counter by a positive constant"
+		} else if neqForm && k != 1 {
+			return false, "`counter != bound` with a step other than one may step over the bound"
 		}
 	}
 	if back == 0 {
 		return false, "no back edge found"
+	}
+	if neqForm {
+		bound, okb := ConstInt(bo.Y)
+		started := false
+		for i, e := range phi.Edges {
+			if l.Blocks[h.Preds[i]] {
+				continue
+			}
+			if k, ok := ConstInt(e); ok && okb && k <= bound {
+				started = true
+			} else {
+				return false, "`counter != bound`: the start or the bound is not a constant, or the start is above the bound"
+			}
+		}
+		if !started {
+			return false, "`counter != bound`: no entry value"
+		}
 	}
 	return true, fmt.Sprintf("counter %s incremented on all %d back edge(s), bound defined outside the loop", phi.Comment, back)
 }
